@@ -89,6 +89,15 @@ PLAN = {
         "scen_thorough": ["h1-max1-AAB", "h1-max1-pto", "h1-max1-pto-AB", "h1-guess-max1", "h1-guess-max2", "h1-max2-AAAA", "h1-max1-close", "h1-max1-abandon", "h1-max3-ABCAB"],
         "strategies": ["base", "dfs", "fault", "cancel-scope"],
     },
+    "C10": {
+        "inv": ["TypeOK"],
+        "prop": ["PassImplementsRel"],
+        "mc_quick": [("CfgsQ2", {"faults": 0, "maxclock": 0})],
+        "vacuity": [],
+        "scen_quick": ["h1-origins-port", "h1-origins-scheme", "h1-origins-host"],
+        "scen_thorough": ["h1-origins-port", "h1-origins-scheme", "h1-origins-host"],
+        "strategies": ["base", "dfs", "sequential"],
+    },
     "C16": {
         "inv": ["TypeOK", "Forgotten"],
         "prop": ["PoolTimeoutExact"],
@@ -216,6 +225,10 @@ class PoolRunner:
                 run = scen.make()
                 run.run()
                 self.add(scen, ("base",), run)
+            if "sequential" in strategies:
+                run = scen.make()
+                run.run(explore.sequential_decide)
+                self.add(scen, ("sequential",), run)
             if "dfs" in strategies:
                 for label, run in explore.dfs_orders(scen.make, depth=8 if quick else 12, max_runs=40 if quick else 400):
                     self.add(scen, label, run)
